@@ -460,6 +460,6 @@ func c20units(tier string) []mc.Unit {
 
 func init() {
 	mc.Register(&mc.Harness{ID: "C20", Units: c20units,
-		Rule: "streams: documents with k entries, intact, truncated at EVERY byte offset, with one byte replaced/deleted at every offset, gzip-truncated; for each stream and each consumer/capacity configuration every interleaving of parser and consumer tasks is executed (states = distinct scheduler states); non-trivial = executions on damaged streams",
+		Rule:   "streams: documents with k entries, intact, truncated at EVERY byte offset, with one byte replaced/deleted at every offset, gzip-truncated; for each stream and each consumer/capacity configuration every interleaving of parser and consumer tasks is executed (states = distinct scheduler states); non-trivial = executions on damaged streams",
 		Assume: []string{"well-formedness and the number of complete entries before the damage are decided by an independent pass of encoding/xml over the same bytes", "a partial entry delivered after the complete ones is tolerated (the statement is silent)", "interleavings at channel-operation granularity"}})
 }
